@@ -155,12 +155,102 @@ static void c14_scenario(int scen, unsigned long long seed, char *desc, size_t d
   snprintf(desc, dsz, "scen%d rc%d rc2%d n%ld failed%ld %s", scen, rc, rc2, c14_count, c14_failed, es);
 }
 
+
+/* second part of the catalogue (scenarios 16..): the remaining entry points, on images whose JPEG representation is larger than the
+   destination manager's initial 4 KB so that the output buffer is re-allocated (several times) during the armed calls */
+static void c14_scenario2(int scen, unsigned long long seed, char *desc, size_t dsz)
+{
+  int w = 100 + (int)(seed % 29ULL), h = 90 + (int)((seed >> 8) % 39ULL), rc = 0, rc2 = 0, ss = (int)((seed >> 4) % 6ULL), i;
+  static unsigned char img[128 * 128 * 4], out[256 * 256 * 4], yuv[256 * 256 * 4]; unsigned char *jp = NULL, *jp2[2] = { NULL, NULL }, *icc = NULL; size_t jn = 0, jn2[2] = { 0, 0 }, iccn = 0;
+  unsigned char *planes[3]; int strides[3] = { 0, 0, 0 };
+  tjhandle hc = NULL, hd = NULL; char es[200] = "";
+  if (ss == 3) ss = 0;
+  for (i = 0; i < w * h * 4; i++) img[i] = (unsigned char)(c03_mix(seed + (unsigned long long)i) & 255ULL);   /* noise: a large JPEG */
+  c14_armed = 1;
+  if (scen == 24) {
+    /* the legacy entry points */
+    unsigned long ul = 0; int jw, jh, jss, jcs;
+    hc = tjInitCompress();
+    if (hc) { rc = tjCompress2(hc, img, w, 0, h, TJPF_RGBX, &jp, &ul, ss, 97, seed & 1ULL ? TJFLAG_PROGRESSIVE : 0); jn = ul; } else rc = -1;
+    if (rc == 0 && jp) {
+      hd = tjInitDecompress();
+      if (hd) { rc2 = tjDecompressHeader3(hd, jp, ul, &jw, &jh, &jss, &jcs); if (rc2 == 0) rc2 = tjDecompress2(hd, jp, ul, out, 0, 0, 0, TJPF_BGR, 0); if (rc2 == 0) rc2 = tjDecompressToYUV2(hd, jp, ul, yuv, 0, 4, 0, 0); }
+      else rc2 = -1;
+      if (rc2 == 0 && hc) { unsigned char *j3 = NULL; unsigned long u3 = 0; rc2 = tjCompressFromYUV(hc, yuv, w, 4, h, ss, &j3, &u3, 97, 0); tj3Free(j3); }
+    }
+    goto end;
+  }
+  hc = tj3Init(scen == 22 ? TJINIT_TRANSFORM : TJINIT_COMPRESS);
+  if (!hc) { rc = -1; goto end; }
+  tj3Set(hc, TJPARAM_SUBSAMP, ss); tj3Set(hc, TJPARAM_QUALITY, 97);
+  if ((seed >> 12) % 3ULL == 1) tj3Set(hc, TJPARAM_PROGRESSIVE, 1);
+  if ((seed >> 12) % 3ULL == 2) tj3Set(hc, TJPARAM_OPTIMIZE, 1);
+  if (scen == 16) {
+    rc = tj3EncodeYUV8(hc, img, w, 0, h, TJPF_BGRX, yuv, 4);
+    if (rc == 0) rc = tj3CompressFromYUV8(hc, yuv, w, 4, h, &jp, &jn);
+  } else if (scen == 17) {
+    planes[0] = yuv; planes[1] = yuv + 256 * 256; planes[2] = yuv + 2 * 256 * 256; strides[0] = strides[1] = strides[2] = 256;
+    rc = tj3EncodeYUVPlanes8(hc, img, w, 0, h, TJPF_RGB, planes, strides);
+    if (rc == 0) rc = tj3CompressFromYUVPlanes8(hc, (const unsigned char * const *)planes, w, strides, h, &jp, &jn);
+  } else if (scen == 18 || scen == 19 || scen == 20) {
+    rc = tj3Compress8(hc, img, w, 0, h, TJPF_XRGB, &jp, &jn);
+    if (rc == 0 && scen == 18 && (seed & 1ULL)) { tj3Set(hc, TJPARAM_NOREALLOC, 0); rc = tj3Compress8(hc, img, w, 0, h, TJPF_XRGB, &jp, &jn); }   /* the buffer of the first call re-used */
+  } else if (scen == 21) {
+    static unsigned char prof[70000]; size_t pn = 1 + (size_t)(seed % 69000ULL);
+    for (i = 0; i < (int)pn; i++) prof[i] = (unsigned char)(i * 7 + 1);
+    rc = tj3SetICCProfile(hc, prof, pn);
+    if (rc == 0) rc = tj3Compress8(hc, img, w, 0, h, TJPF_RGB, &jp, &jn);
+  } else if (scen == 23) {
+    char path[64]; int lw = 0, lh = 0, lpf = TJPF_RGB; unsigned char *ld;
+    snprintf(path, sizeof(path), "/dev/shm/c14_%d.ppm", (int)getpid());
+    rc = tj3SaveImage8(hc, path, img, w, 0, h, TJPF_RGB);
+    if (rc == 0) { ld = tj3LoadImage8(hc, path, &lw, 4, &lh, &lpf); if (!ld) rc2 = -1; tj3Free(ld); }
+    unlink(path);
+  }
+  if (rc < 0) snprintf(es, sizeof(es), "%s", tj3GetErrorStr(hc));
+  if ((scen == 19 || scen == 20 || scen == 21) && rc == 0 && jp) {
+    hd = tj3Init(TJINIT_DECOMPRESS);
+    if (hd) {
+      rc2 = tj3DecompressHeader(hd, jp, jn);
+      if (rc2 == 0 && scen == 19) {
+        planes[0] = yuv; planes[1] = yuv + 256 * 256; planes[2] = yuv + 2 * 256 * 256; strides[0] = strides[1] = strides[2] = 256;
+        rc2 = tj3DecompressToYUVPlanes8(hd, jp, jn, planes, strides);
+        if (rc2 == 0) rc2 = tj3DecodeYUVPlanes8(hd, (const unsigned char * const *)planes, strides, out, w, 0, h, TJPF_RGBA);
+      } else if (rc2 == 0 && scen == 20) {
+        tjscalingfactor f = { 3, 4 }; tj3SetScalingFactor(hd, f);
+        rc2 = tj3DecompressToYUV8(hd, jp, jn, yuv, 1);
+        if (rc2 == 0) rc2 = tj3DecodeYUV8(hd, yuv, 1, out, TJSCALED(w, f), 0, TJSCALED(h, f), TJPF_BGR);
+      } else if (rc2 == 0) {
+        rc2 = tj3GetICCProfile(hd, &icc, &iccn);
+        if (rc2 == 0) rc2 = tj3Decompress8(hd, jp, jn, out, 0, TJPF_RGB);
+      }
+    } else rc2 = -1;
+  }
+  if (scen == 22) {
+    long f1 = c14_fail1, f2 = c14_fail2; tjhandle h0; tjtransform xf[2];
+    c14_armed = 0;
+    h0 = tj3Init(TJINIT_COMPRESS); tj3Set(h0, TJPARAM_SUBSAMP, ss); tj3Set(h0, TJPARAM_QUALITY, 97); tj3Compress8(h0, img, w, 0, h, TJPF_RGB, &jp, &jn); tj3Destroy(h0);
+    c14_fail1 = f1; c14_fail2 = f2; c14_armed = 1;
+    memset(xf, 0, sizeof(xf));
+    xf[0].op = 1 + (int)(seed % 7ULL); xf[0].options = TJXOPT_TRIM | ((seed >> 3) & 1ULL ? TJXOPT_COPYNONE : 0);
+    xf[1].op = (int)((seed >> 5) % 8ULL); xf[1].options = TJXOPT_TRIM | TJXOPT_GRAY | ((seed >> 9) & 1ULL ? TJXOPT_PROGRESSIVE : TJXOPT_OPTIMIZE);
+    rc2 = tj3Transform(hc, jp, jn, 2, jp2, jn2, xf);
+  }
+end:
+  if (hc) tj3Destroy(hc);
+  if (hd) tj3Destroy(hd);
+  c14_armed = 0;
+  tj3Free(jp2[0]); tj3Free(jp2[1]); tj3Free(icc);
+  tj3Free(jp);
+  snprintf(desc, dsz, "scen%d rc%d rc2%d n%ld failed%ld %s", scen, rc, rc2, c14_count, c14_failed, es);
+}
+
 /* afail scen seed k1 k2 */
 static int c14_afail(toks_t *t)
 {
   int scen = (int)tl(t, 1); unsigned long long seed = (unsigned long long)tll(t, 2); long k1 = tl(t, 3), k2 = tl(t, 4); char desc[300]; int i; size_t leaked = 0;
   c14_reset(k1, k2);
-  c14_scenario(scen, seed, desc, sizeof(desc));
+  if (scen >= 16) c14_scenario2(scen, seed, desc, sizeof(desc)); else c14_scenario(scen, seed, desc, sizeof(desc));
   printf("R skip %s\n", desc);
   for (i = 0; i < c14_nlive; i++) leaked += c14_live[i].n;
   if (c14_overflow) printf("O ok\n");
